@@ -108,6 +108,9 @@ func (bw *BatchedWriter) startBatchWriter() {
 	bw.startStopMutex.Lock()
 	if !bw.running.Load() {
 		bw.running.Store(true)
+		// register the writer before it is started, otherwise StopBatchWriter may wait on the
+		// WaitGroup before the goroutine got to run and return while objects are still unwritten.
+		bw.writeWg.Add(1)
 		go bw.runBatchWriter()
 	}
 	bw.startStopMutex.Unlock()
@@ -163,8 +166,6 @@ func (bw *BatchedWriter) Flush() {
 
 // runBatchWriter collects objects in batches and persists them to the KVStore.
 func (bw *BatchedWriter) runBatchWriter() {
-	bw.writeWg.Add(1)
-
 	for bw.running.Load() || bw.scheduledCount.Load() != 0 {
 		batchedMutation, err := bw.store.Batched()
 		if err != nil {
